@@ -260,5 +260,16 @@ def run(rep, tier, seed, replay):
         nbad += multi_rule_block(rep, random.Random(seed + 1), 400 if tier == "quick" else 12000)
         rep.cov["rule"] += ("; plus %d configurations of 2-4 overlapping glob rules that share label template texts (references up to $5), queried with and without cache and as "
                             "translated regex rules: every answer must expand the winning rule's own captures" % rep.extra.get("multi_rule_configs", 0))
+    if not replay and len(rep.violations) < 5:
+        import genproof
+        n_, text = genproof.race_hunt(["mapper none 0 4 150 unordered", "mapper none 0 4 100"])
+        rep.count(1)
+        mixed = [int(x) for x in re.findall(r"mixed=(\d+)", text or "")]
+        if n_ is None:
+            rep.violation("the race-instrumented harness does not build", dict(log=text), no_input=True)
+        elif any(mixed) or n_:
+            rep.violation("with several lookups in flight a name or label was expanded from another lookup's captures (or the race detector reports the capture list shared)",
+                          dict(output=(text or "")[:2500], scenarios="4 goroutines looking up a.x0..a.x6 while configurations alternate, glob_disable_ordering on and off"))
+        rep.extra["concurrent_lookup_scenarios"] = 2
     rep.extra["disagreements_with_model"] = nbad
     rep.sample(dict(items[0] and dict(pattern=items[0][0].decode(), name=items[0][1].decode(), labels=[x.decode() for x in items[0][2]], metric=items[0][3].decode()), impl=impl[0]))
